@@ -1,2 +1,2 @@
 From LV Require Import Ledger.Filter.
-NAMES flt_list flt_count flt_ref flt_sat flt_emit flt_eval flt_validate flt_aggregate row_of
+NAMES flt_list flt_count flt_ref flt_sat flt_emit flt_eval flt_validate flt_aggregate row_of safe_lateral collect_addrs need_segments flt_prefilter
